@@ -118,6 +118,205 @@ def reaching_defs(cfg, var: str):
     return IN
 
 
+# ---------------------------------------------------------------------------------------------------- R4: the max_norm cap
+def _single_defs(fn_node):
+    d = {}
+    for a in ast.walk(fn_node):
+        if isinstance(a, ast.Assign) and len(a.targets) == 1 and isinstance(a.targets[0], ast.Name):
+            d.setdefault(a.targets[0].id, []).append(a.value)
+    return {k: v[0] for k, v in d.items() if len(v) == 1}
+
+
+def norm_power(e, defs, depth=0):
+    """(text of the vector, p) when `e` is ||v||^p for a recognisable spelling (norm calls, dot(v, v), (v*v).sum(), sqrt, ** 2, locals
+    bound once), else None."""
+    if depth > 6:
+        return None
+    if isinstance(e, ast.Name) and e.id in defs:
+        return norm_power(defs[e.id], defs, depth + 1)
+    if isinstance(e, ast.Call):
+        f = norm_text(e.func)
+        last = f.split(".")[-1]
+        kws = {k.arg: k.value for k in e.keywords}
+        ordv = kws.get("ord", kws.get("p"))
+        two = ordv is None or (isinstance(ordv, ast.Constant) and ordv.value == 2)
+        if last in ("norm", "vector_norm") and two:
+            arg = e.args[0] if (e.args and f.startswith(("torch.", "np.", "numpy.", "linalg."))) else (e.func.value if isinstance(e.func, ast.Attribute) and not e.args else None)
+            if arg is not None and len(e.args) <= 1:
+                return (norm_text(inline(arg, defs)), 1.0)
+        if last in ("dot", "vdot", "inner") and len(e.args) == 2 and norm_text(inline(e.args[0], defs)) == norm_text(inline(e.args[1], defs)):
+            return (norm_text(inline(e.args[0], defs)), 2.0)
+        if last == "dot" and isinstance(e.func, ast.Attribute) and len(e.args) == 1 and norm_text(inline(e.func.value, defs)) == norm_text(inline(e.args[0], defs)):
+            return (norm_text(inline(e.args[0], defs)), 2.0)
+        if last == "sum" and isinstance(e.func, ast.Attribute) and not e.args:
+            v = e.func.value
+            if isinstance(v, ast.BinOp) and isinstance(v.op, ast.Mult) and norm_text(inline(v.left, defs)) == norm_text(inline(v.right, defs)):
+                return (norm_text(inline(v.left, defs)), 2.0)
+            if isinstance(v, ast.Call) and isinstance(v.func, ast.Attribute) and (v.func.attr == "square" or (v.func.attr == "pow" and v.args and isinstance(v.args[0], ast.Constant) and v.args[0].value == 2)):
+                return (norm_text(inline(v.func.value, defs)), 2.0)
+        if last == "sqrt":
+            inner = e.args[0] if e.args else (e.func.value if isinstance(e.func, ast.Attribute) else None)
+            r = norm_power(inner, defs, depth + 1) if inner is not None else None
+            return (r[0], r[1] / 2) if r else None
+        if last in ("item", "float") and isinstance(e.func, ast.Attribute) and not e.args:
+            return norm_power(e.func.value, defs, depth + 1)
+    if isinstance(e, ast.BinOp) and isinstance(e.op, ast.MatMult) and norm_text(inline(e.left, defs)) == norm_text(inline(e.right, defs)):
+        return (norm_text(inline(e.left, defs)), 2.0)
+    if isinstance(e, ast.BinOp) and isinstance(e.op, ast.Pow) and isinstance(e.right, ast.Constant) and isinstance(e.right.value, (int, float)):
+        r = norm_power(e.left, defs, depth + 1)
+        return (r[0], r[1] * e.right.value) if r else None
+    if isinstance(e, ast.BinOp) and isinstance(e.op, ast.Mult) and norm_text(e.left) == norm_text(e.right):
+        r = norm_power(e.left, defs, depth + 1)
+        return (r[0], r[1] * 2) if r else None
+    return None
+
+
+def inline(e, defs, depth=0):
+    """Locals bound once replaced by their definitions (bounded)."""
+    import copy
+
+    if depth > 4:
+        return e
+
+    class T(ast.NodeTransformer):
+        def visit_Name(self, n):
+            if isinstance(n.ctx, ast.Load) and n.id in defs and not isinstance(defs[n.id], ast.Name):
+                return inline(copy.deepcopy(defs[n.id]), defs, depth + 1)
+            return n
+
+    return T().visit(copy.deepcopy(e))
+
+
+def bound_power(e, defs):
+    """p when `e` is max_norm^p (self.max_norm, ** 2, x * x, a local bound once to one of these)."""
+    if isinstance(e, ast.Name) and e.id in defs:
+        return bound_power(defs[e.id], defs)
+    if self_attr(e) == "max_norm":
+        return 1.0
+    if isinstance(e, ast.BinOp) and isinstance(e.op, ast.Pow) and isinstance(e.right, ast.Constant) and isinstance(e.right.value, (int, float)):
+        b = bound_power(e.left, defs)
+        return b * e.right.value if b else None
+    if isinstance(e, ast.BinOp) and isinstance(e.op, ast.Mult) and norm_text(e.left) == norm_text(e.right):
+        b = bound_power(e.left, defs)
+        return b * 2 if b else None
+    return None
+
+
+def num_eval(e, defs, vals, weight_name, depth=0):
+    """Value of a rescaling expression at a sample point: the weights stand for 1.0, every ||v||^p for n**p, max_norm for M."""
+    import math
+
+    if depth > 8:
+        return None
+    np_ = norm_power(e, defs)
+    if np_ is not None:
+        return vals["n"] ** np_[1]
+    bp = bound_power(e, defs)
+    if bp is not None:
+        return vals["M"] ** bp
+    if isinstance(e, ast.Name):
+        if e.id == weight_name:
+            return 1.0
+        return num_eval(defs[e.id], defs, vals, weight_name, depth + 1) if e.id in defs else None
+    if isinstance(e, ast.Constant) and isinstance(e.value, (int, float)) and not isinstance(e.value, bool):
+        return float(e.value)
+    if isinstance(e, ast.UnaryOp) and isinstance(e.op, ast.USub):
+        v = num_eval(e.operand, defs, vals, weight_name, depth + 1)
+        return -v if v is not None else None
+    if isinstance(e, ast.BinOp) and isinstance(e.op, (ast.Add, ast.Sub, ast.Mult, ast.Div, ast.Pow)):
+        a, b = num_eval(e.left, defs, vals, weight_name, depth + 1), num_eval(e.right, defs, vals, weight_name, depth + 1)
+        if a is None or b is None:
+            return None
+        try:
+            return {ast.Add: a + b, ast.Sub: a - b, ast.Mult: a * b, ast.Div: a / b if b else None, ast.Pow: a ** b}[type(e.op)]
+        except (OverflowError, ZeroDivisionError, ValueError):
+            return None
+    if isinstance(e, ast.Call) and norm_text(e.func).split(".")[-1] in ("mul", "div", "true_divide", "multiply", "divide") and isinstance(e.func, ast.Attribute) and len(e.args) == 1 \
+            and not norm_text(e.func).startswith(("torch.", "np.")):
+        a, b = num_eval(e.func.value, defs, vals, weight_name, depth + 1), num_eval(e.args[0], defs, vals, weight_name, depth + 1)
+        if a is None or b is None:
+            return None
+        return a * b if norm_text(e.func).split(".")[-1] in ("mul", "multiply") else (a / b if b else None)
+    return None
+
+
+def cap_rule(index, ctx, cls, fwd):
+    """R4 (shape of the max_norm cap): inside the branch guarded by `max_norm > 0`, ||weights @ matrix||^p is compared with
+    max_norm^p for the same p, and on the exceeding side the weights are multiplied by max_norm / ||weights @ matrix||."""
+    from ..guards import oriented
+
+    ctx.rule("R4", "the cap of the returned vector: under `max_norm > 0` the quantity compared with the bound is a power of ||weights·matrix|| compared with the same power of "
+                   "max_norm, and where it exceeds the bound the weights are multiplied by max_norm / ||weights·matrix|| (the extracted rescaling expression is evaluated at sample "
+                   "points); only this shape is decided, not floating-point behaviour")
+    hosts = [fwd] + [cls.methods[c.func.attr] for c in ast.walk(fwd.node) if isinstance(c, ast.Call) and isinstance(c.func, ast.Attribute) and isinstance(c.func.value, ast.Name)
+                     and c.func.value.id == "self" and c.func.attr in cls.methods]
+    found = 0
+    for H in hosts:
+        defs = _single_defs(H.node)
+        for outer in [n for n in ast.walk(H.node) if isinstance(n, ast.If)]:
+            o = oriented(outer.test, lambda e: self_attr(e) == "max_norm") if isinstance(outer.test, ast.Compare) and len(outer.test.ops) == 1 else None
+            if not (o and o[1] is ast.Gt and isinstance(o[2], ast.Constant) and o[2].value == 0):
+                continue
+            for inner in [n for b_ in outer.body for n in ast.walk(b_) if isinstance(n, ast.If) and isinstance(n.test, ast.Compare) and len(n.test.ops) == 1]:
+                l_, r_ = inner.test.left, inner.test.comparators[0]
+                sides = [(norm_power(l_, defs), bound_power(r_, defs), type(inner.test.ops[0])), (norm_power(r_, defs), bound_power(l_, defs), {ast.Gt: ast.Lt, ast.Lt: ast.Gt, ast.GtE: ast.LtE, ast.LtE: ast.GtE}.get(type(inner.test.ops[0])))]
+                side = next((x for x in sides if x[1] is not None), None)
+                if side is None:
+                    continue
+                found += 1
+                npow, bpow, op = side
+                key = f"{H.short}: `{norm_text(inner.test)}`"
+                if npow is None:
+                    ctx.undecided("R4", key, "the quantity compared with max_norm is not a recognised spelling of a power of a vector norm", H.loc(inner))
+                    continue
+                ctx.require(abs(npow[1] - bpow) < 1e-9 and op in (ast.Gt, ast.GtE), "R4", key if abs(npow[1] - bpow) < 1e-9 else f"{H.short}: the cap compares like with like",
+                            f"||{npow[0]}||^{npow[1]:g} against max_norm^{bpow:g}",
+                            f"`{norm_text(inner.test)}` compares ||{npow[0]}||^{npow[1]:g} with max_norm^{bpow:g}: for max_norm < 1 (resp. > 1) vectors whose norm lies between max_norm and "
+                            f"max_norm^{bpow / npow[1]:g} are returned unscaled (resp. scaled although within the bound)", H.loc(inner))
+                # the rescaling on the exceeding side
+                body = inner.body if op in (ast.Gt, ast.GtE) else inner.orelse
+                outs = [(s_.targets[0].id, s_.value, s_) for b_ in body for s_ in ast.walk(b_) if isinstance(s_, ast.Assign) and len(s_.targets) == 1 and isinstance(s_.targets[0], ast.Name)
+                        and s_.targets[0].id in {x.id for x in ast.walk(s_.value) if isinstance(x, ast.Name)}]
+                outs += [(None, s_.value, s_) for b_ in body for s_ in ast.walk(b_) if isinstance(s_, ast.Return) and s_.value is not None]
+                if len(outs) != 1:
+                    ctx.undecided("R4", f"{H.short}: rescaling of the weights", f"expected one rescaling statement on the exceeding side, found {len(outs)}", H.loc(inner))
+                    continue
+                wname, val, stmt = outs[0]
+                if wname is None:
+                    params = [a.arg for a in H.node.args.args[1:]]
+                    used = [x.id for x in ast.walk(val) if isinstance(x, ast.Name) and x.id in params and norm_power(x, defs) is None]
+                    wname = next((u for u in used if u != "matrix"), None)
+                defs2 = {k_: v_ for k_, v_ in defs.items() if k_ != wname}
+                good, evaluated = True, True
+                for n_, M_ in ((3.0, 0.5), (0.7, 0.25), (5.0, 2.0)):
+                    got = num_eval(val, defs2, {"n": n_, "M": M_}, wname)
+                    if got is None:
+                        evaluated = False
+                        break
+                    good = good and abs(got - M_ / n_) < 1e-9 * max(1.0, M_ / n_)
+                if not evaluated:
+                    ctx.undecided("R4", f"{H.short}: `{norm_text(stmt)[:80]}`", "the rescaling expression is not built from the weights, the norm and max_norm with + - * / ** sqrt", H.loc(stmt))
+                else:
+                    ctx.require(good, "R4", f"{H.short}: `{norm_text(stmt)[:80]}`", "weights · max_norm / ||weights·matrix|| at 3 sample points",
+                                f"`{norm_text(stmt)[:80]}` does not multiply the weights by max_norm / ||weights·matrix||: the returned vector does not have norm max_norm when the bound is exceeded", H.loc(stmt))
+    if not found:
+        ctx.undecided("R4", "forward: the max_norm cap", "no `if <norm> > max_norm` under `if self.max_norm > 0` was found in forward or the methods it calls", fwd.loc())
+
+
+def stored_is_returned_rule(ctx, cls):
+    """R2 (second half): what the optimiser stores for reuse is what it hands back — `self.prvs_alpha = X ... return Y` must name the same value."""
+    for f in cls.methods.values():
+        stores_ = [s_ for s_ in ast.walk(f.node) if isinstance(s_, ast.Assign) and len(s_.targets) == 1 and self_attr(s_.targets[0]) == "prvs_alpha" and f.name not in ("__init__", "reset")]
+        rets = [r for r in ast.walk(f.node) if isinstance(r, ast.Return) and r.value is not None]
+        if not stores_ or not rets:
+            continue
+        last = stores_[-1]
+        same = all(norm_text(r.value) in (norm_text(last.value), "self.prvs_alpha") for r in rets)
+        ctx.require(same, "R2", f"{f.short}: the weights stored for reuse are the weights returned", f"`{norm_text(last)}` and `return {norm_text(rets[-1].value)}`",
+                    f"`{norm_text(last)}` stores one value and `return {norm_text(rets[-1].value)}` hands back another: the calls that reuse the stored weights do not return what the recomputing call returned",
+                    f.loc(last))
+
+
 def check(index, ctx):
     ctx.rule("R1", "every attribute stored outside __init__ is either re-assigned by reset() on every path with the constructor's expression, or rebuilt unconditionally by a "
              "method that forward calls under a guard 'field has its initial value' that comes first in forward; constructor parameters are never re-assigned; NashMTL.reset delegates")
@@ -459,5 +658,7 @@ def check(index, ctx):
         ctx.require(not shared, "R2", f"forward: `{norm_text(a)}` does not write into stored state", "target is a freshly computed value on every reaching definition",
                     f"`{norm_text(a)}` updates `{tgt}` in place, and `{tgt}` may share memory with stored state via `{norm_text(shared[0].ast) if shared else ''}` "
                     "(torch.from_numpy / .to() return views when no conversion is needed): the stored weights would not be reused unchanged", fwd.loc(a))
+    cap_rule(index, ctx, cls, fwd)
+    stored_is_returned_rule(ctx, cls)
     ctx.assumptions += ["kinds are inferred from construction forms (torch.* -> tensor, np.* -> ndarray, .numpy() -> ndarray)",
-                        "||result|| <= max_norm and solver convergence are numerical and NOT decided"]
+                        "solver convergence is numerical and NOT decided; of `||result|| <= max_norm` only the shape of the cap is decided (R4)"]
